@@ -38,6 +38,25 @@ fn main() {
                 i += 1;
                 replay = args.get(i).cloned();
             }
+            "--fuzz-bytes" => {
+                // vcheck <ID> --fuzz-bytes <sub-check key> <file>: decode a libFuzzer input of the pt_cases target and judge it
+                let key = args.get(i + 1).cloned().unwrap_or_default();
+                let bytes = args.get(i + 2).and_then(|f| std::fs::read(f).ok()).unwrap_or_default();
+                vh::install_panic_hook();
+                match vh::ptfuzz::judge(&key, &bytes) {
+                    Some((f, case)) => {
+                        println!("case: {case}");
+                        println!("VIOLATION property={id} replay={}", args.get(i + 2).cloned().unwrap_or_default());
+                        println!("  signature: {}", f.signature);
+                        println!("  {}", f.message);
+                        exit(1);
+                    }
+                    None => {
+                        println!("property held (or the bytes decode to no case)");
+                        exit(0);
+                    }
+                }
+            }
             other => {
                 eprintln!("unknown argument {other}");
                 exit(2);
